@@ -44,6 +44,30 @@ CHECKS += [
           "multi-line RRULE/RDATE/EXRULE/EXDATE texts compared with set algebra; malformed menu must raise ValueError.",
   "note": "Keyword-built rules are the oracle (their correctness is C01); dateutil.parser reads DTSTART/UNTIL values."},
 ]
+CHECKS += [
+ {"id": "C10", "engine": "E2-history",
+  "technique": "explicit-state BFS over member-addition / partial-iteration / query histories on real rruleset objects, canonical-state deduplication, set-algebra reference",
+  "text": "Breadth-first search over all histories (depth 4 quick, 5-6 thorough) that interleave adding rules and dates in inclusion/exclusion roles "
+          "(shared rule instances, a cached member longer than a fill batch, coinciding and one-second-off dates) with partial iterations and queries, cache on and off; "
+          "every answer is compared with sorted((U incl) - (U excl)) computed from the members' own listings, the memo must always be a prefix of it, and the listing after a "
+          "history must equal that of a freshly built set.",
+  "note": "Member listings are the reference (C01). Live iterators kept across a mutation are not part of the statement and are not explored."},
+ {"id": "C11", "engine": "E2-history + E3-schedule",
+  "technique": "explicit-state BFS over iterator interleavings (one thread) + stateless preemption-bounded schedule exploration of real threads at source-line granularity",
+  "text": "E2: all interleavings of new-iterator / next / list / count / index / slice / contains / between operations of 2-4 live iterators over a cached rule "
+          "whose length straddles the fill batch (0,1,9,10,11,12,20,21), deduplicated on (cursors, cache length, complete flag, lock state); self-deadlock is detected through a model lock. "
+          "E3: every schedule of 2 (thorough 3) threads running iterate/list/count/index/slice/contains over the same cached rule, scheduling point at every source line of rrule.py and "
+          "every lock acquisition, preemption bound 2 (thorough 3); deadlock = no enabled thread; each thread must observe exactly the uncached sequence.",
+  "note": "Preemption inside a line or inside C code is not modelled; lock seam rebinds dateutil.rrule._thread.allocate_lock (bind asserted; failure exits 2). "
+          "Random schedules beyond the bound are sampling and are not done."},
+ {"id": "C12", "engine": "E2-history",
+  "technique": "explicit-state BFS over query histories on finite rules/sets (cache on/off) against plain list operations",
+  "text": "For 8 finite rule/set objects x cache on/off, BFS over query histories (depth 2 quick / 3 thorough for cached objects whose state is (cache length, complete, known length); "
+          "all single queries and ordered pairs for uncached ones) over a menu of ~900 queries (count, every index class, 294+ slices incl. negative and zero bounds, contains, "
+          "after/before/between/xafter with element / one-second-off / far instants and inc) compared with list semantics on L; replace() compared with keyword reconstruction for "
+          "every constructor parameter and pairs.",
+  "note": "L = list(fresh uncached equal object) is the reference sequence."},
+]
 _claimed = {c["id"] for c in CHECKS}
 NOT_APPLICABLE = [{"property_id": p, "reason": "check not built yet (work in progress; see DESIGN.md §5 build order)"}
                   for p in ALL if p not in _claimed]
